@@ -118,7 +118,7 @@ func genStepOp(t *rapid.T, first bool, op string) Step {
 		nkeys = 1
 	}
 	for i := 0; i < nkeys; i++ {
-		s.Keys = append(s.Keys, KeySpec{N: rapid.IntRange(0, 6).Draw(t, "key"), Sym: rapid.Bool().Draw(t, "sym")})
+		s.Keys = append(s.Keys, KeySpec{N: rapid.SampledFrom([]int{0, 1, 2, 3, 4, 5, 6, 0, 1, 2, 3, 4, 5, 6, 7, 7, 8, 9}).Draw(t, "key"), Sym: rapid.Bool().Draw(t, "sym")})
 	}
 	s.Fn = rapid.IntRange(0, 3).Draw(t, "fn")
 	if s.Op == "alias" && cat == "map" {
@@ -270,6 +270,13 @@ var exactOrigins = []string{"keys", "reverse", "concat", "zip", "append", "inser
 func genCapacity(t *rapid.T) []Step {
 	sl := distinctSlots(t, 3)
 	S, X, Y := sl[0], sl[1], sl[2]
+	out, bytesSrc := capOrigin(t, S)
+	return genCapacityFrom(t, out, bytesSrc, S, X, Y)
+}
+
+// capOrigin emits the steps that leave in slot S a source whose storage may
+// have spare capacity (see genCapacity for the thirteen origins).
+func capOrigin(t *rapid.T, S int) ([]Step, bool) {
 	var out []Step
 	bytesSrc := false
 	switch org := rapid.IntRange(0, 12).Draw(t, "origin"); org {
@@ -336,6 +343,10 @@ func genCapacity(t *rapid.T) []Step {
 		out = append(out, s)
 	default: // whatever slot S holds already
 	}
+	return out, bytesSrc
+}
+
+func genCapacityFrom(t *rapid.T, out []Step, bytesSrc bool, S, X, Y int) []Step {
 	if !bytesSrc && rapid.IntRange(0, 2).Draw(t, "capderive") == 0 {
 		// ... or a value DERIVED from that source (the 0- and 1-element
 		// special cases of reverse, map, select, concat, slice ... start here);
@@ -562,6 +573,98 @@ func genViews(t *rapid.T) []Step {
 	return out
 }
 
+// genViewEnd emits the scenario in which a VIEW meets spare capacity: a source
+// S of any capacity origin (usually a vector or bytes value grown in place),
+// a view V of it that ends exactly where the source ends (slice ... to the
+// length, rest, cdr; sometimes one that stops short), usually a view W of that
+// view to ITS end, and then two to four extensions aimed at the views and at
+// the source in any order -- append! on the view and then on the source must
+// not meet in one slot, a non-mutating append / insert-index at the end from
+// the view must write nowhere, a sort of the source must still show through
+// the view until the view detaches.
+func genViewEnd(t *rapid.T) []Step {
+	sl := distinctSlots(t, 4)
+	S, V, W, X := sl[0], sl[1], sl[2], sl[3]
+	var out []Step
+	bytesSrc := false
+	if rapid.IntRange(0, 3).Draw(t, "vegrown") > 0 {
+		// the common case spelled out: a vector (or bytes) grown by one to three append!s
+		mk := "vector"
+		tt := 1
+		if rapid.IntRange(0, 5).Draw(t, "vebytes") == 0 {
+			mk, tt, bytesSrc = "to-bytes", 2, true
+		}
+		s := scenarioStep(t, mk)
+		if bytesSrc {
+			s.Fn = 1
+		}
+		s.Dst = S
+		out = append(out, s)
+		for i, n := 0, rapid.IntRange(1, 3).Draw(t, "vegrow"); i < n; i++ {
+			g := scenarioStep(t, "append!")
+			g.T = tt
+			aim(&g, S)
+			g.Dst = -1
+			atLeastOneArg(t, &g)
+			out = append(out, g)
+		}
+	} else {
+		out, bytesSrc = capOrigin(t, S)
+	}
+	viewT := func() int {
+		if bytesSrc {
+			return 2
+		}
+		return rapid.SampledFrom([]int{1, 1, 1, 0}).Draw(t, "vet")
+	}
+	mkView := func(src, dst int, label string) Step {
+		ops := []string{"slice", "slice", "slice", "rest", "cdr"}
+		if bytesSrc {
+			ops = []string{"slice"}
+		}
+		v := scenarioStep(t, rapid.SampledFrom(ops).Draw(t, label))
+		v.T = viewT()
+		v.I = rapid.IntRange(0, 7).Draw(t, label+"i")
+		if rapid.IntRange(0, 4).Draw(t, label+"end") > 0 {
+			v.J = -1 // resolved to "up to the end of the source"
+		}
+		aim(&v, src)
+		v.Dst = dst
+		return v
+	}
+	out = append(out, mkView(S, V, "ve1"))
+	targets := []int{V, S, V, S}
+	if rapid.IntRange(0, 2).Draw(t, "ve2q") == 0 {
+		out = append(out, mkView(V, W, "ve2"))
+		targets = append(targets, W, W)
+	}
+	n := rapid.IntRange(2, 4).Draw(t, "ven")
+	for i := 0; i < n; i++ {
+		ops := []string{"append!", "append!", "append!", "append", "insert-index", "stable-sort", "append!"}
+		if bytesSrc {
+			ops = []string{"append!", "append-bytes!", "append!", "append", "append-bytes"}
+		}
+		m := scenarioStep(t, rapid.SampledFrom(ops).Draw(t, "vem"))
+		m.T = 1
+		if bytesSrc {
+			m.T = 2
+		}
+		atLeastOneArg(t, &m)
+		if m.Op == "insert-index" && rapid.Bool().Draw(t, "veatend") {
+			m.I = -1
+		}
+		aim(&m, rapid.SampledFrom(targets).Draw(t, "vetarget"))
+		if mutatingOps[m.Op] {
+			m.Dst = -1
+		} else {
+			m.Dst = X
+		}
+		maybeBad(t, &m)
+		out = append(out, m)
+	}
+	return out
+}
+
 // genMapChurn works ONE map with a run of operations on one or two key NAMES
 // under changing spellings: write as symbol, delete, write again as string,
 // look up, copy with assoc / dissoc (present and absent keys), change the copy
@@ -577,8 +680,8 @@ func genMapChurn(t *rapid.T) []Step {
 		m.Dst = M
 		out = append(out, m)
 	}
-	k1 := rapid.IntRange(0, 6).Draw(t, "churnk1")
-	k2 := rapid.IntRange(0, 6).Draw(t, "churnk2")
+	k1 := rapid.IntRange(0, 9).Draw(t, "churnk1")
+	k2 := rapid.IntRange(0, 9).Draw(t, "churnk2")
 	n := rapid.IntRange(3, 6).Draw(t, "churnn")
 	for i := 0; i < n; i++ {
 		op := rapid.SampledFrom([]string{"assoc!", "dissoc!", "assoc!", "dissoc!", "assoc", "dissoc", "get", "keys"}).Draw(t, "churnop")
@@ -615,7 +718,10 @@ func genCase() *rapid.Generator[Case] {
 		for len(c.Steps) < n {
 			i := len(c.Steps)
 			if i >= 2 {
-				switch rapid.IntRange(0, 11).Draw(t, "scenario") {
+				switch rapid.IntRange(0, 12).Draw(t, "scenario") {
+				case 5:
+					c.Steps = append(c.Steps, genViewEnd(t)...)
+					continue
 				case 0:
 					c.Steps = append(c.Steps, genDerive(t)...)
 					continue
